@@ -575,6 +575,10 @@ def gen_interp(rng, kind):
     n = rng.randint(4, 40)
     nsrc = rng.randint(1, 4)
     n_per = [rng.randint(1, 3) for _ in range(nsrc)]
+    if nsrc >= 2 and rng.random() < 0.3:
+        # sources without any selected event (first / middle / last); at least one source keeps its events
+        for j in rng.sample(range(nsrc), rng.randint(1, nsrc - 1)):
+            n_per[j] = 0
     return {'kind': kind, 'fam': fam, 'deg': deg, 'c': c, 'origin': origin, 'delta': delta, 'n': n,
             'n_per': n_per, 'seed': rng.getrandbits(32)}
 
@@ -645,7 +649,9 @@ def run_interp(ctx, exe, cases):
         log = []
         func = make_func(case['fam'], case['c'], log)
         meth = Cls(func, pg)
-        calls = interp_calls(rng, case, grid, delta)
+        calls = [(i, list(x)) for (i, x) in case['calls']] if case.get('calls') else interp_calls(rng, case, grid, delta)
+        if 0 in case['n_per']:
+            ctx.count('interp:source-without-events')
         ctx.case({k: case[k] for k in ('kind', 'fam', 'c', 'origin', 'delta', 'n', 'n_per')} | {'calls': calls})
         ctx.count(f"interp:{case['kind']}:" + ('poly-deg%d' % case['deg'] if case['fam'] == 0 else 'exp-sin'))
         ctx.count('interp:nsources:%d' % len(case['n_per']))
@@ -1212,6 +1218,24 @@ def corpus_regular():
     return out
 
 
+def corpus_interp():
+    """deterministic interpolation cases (every run, every seed): several sources with DIFFERENT parameter
+    values in different cells, of which the first / a middle / the last / two have no selected event (seeded
+    C15-8: a per-source broadcast that counts only the occurring source indices shifts the later sources to
+    their predecessor's value); quadratic manifold (Parabola exact, Linear exact at grid points)."""
+    out = []
+    for kind in ('L', 'P'):
+        for n_per in ([2, 0, 1], [0, 2, 1], [1, 2, 0], [1, 0, 0, 2], [0, 1, 0, 3], [2, 1, 3]):
+            ns = len(n_per)
+            base = [7.4162, 7.37, 7.9, 7.15][:ns]
+            grd = [7.4, 7.2, 7.9, 7.6][:ns]
+            calls = [(1, base), (1, [b + 0.003 for b in base]), (1, grd), (2, list(reversed(base))), (2, [7.55])]
+            out.append({'kind': kind, 'fam': 0, 'deg': 1 if kind == 'L' else 2,
+                        'c': [1.5, -2.0, 0.0 if kind == 'L' else 0.75, 0.25],
+                        'origin': 7.0, 'delta': 0.1, 'n': 12, 'n_per': n_per, 'seed': 11, 'calls': calls})
+    return out
+
+
 # ------------------------------------------------------------------ entry points
 def run(ctx):
     rng = ctx.rng
@@ -1228,7 +1252,7 @@ def run(ctx):
     irr = [gen_irregular(rng) for _ in range(ctx.budget(60, 600))]
     run_irregular(ctx, exe, irr)
     ctx.sample({'irregular': irr[0]['grid'][:5]})
-    itp = [gen_interp(rng, k) for k in ('L', 'P') for _ in range(ctx.budget(40, 400))]
+    itp = corpus_interp() + [gen_interp(rng, k) for k in ('L', 'P') for _ in range(ctx.budget(40, 400))]
     run_interp(ctx, exe, itp)
     ctx.sample({'interp': {k: itp[0][k] for k in ('kind', 'fam', 'c', 'origin', 'delta', 'n', 'n_per')}})
     run_contract_probes(ctx)
